@@ -80,6 +80,15 @@ Theorem C02_unknown_channel_sanity : forall in_amt in_cltv out_amt out_cltv,
   out_amt <= in_amt /\ out_cltv + MIN_CLTV_EXPIRY_DELTA <= in_cltv.
 Proof. exact unknown_chan_sanity_sound. Qed.
 
+(** The same clause for forwards to an SCID WITHOUT a channel (phantom receive, interception of intercept
+    SCIDs / unknown SCIDs): for every kind of SCID and every setting of the interception flags. *)
+Theorem C02_admission_no_channel : forall k fi fu h in_amt in_cltv out_amt out_cltv b,
+  no_channel_admission k fi fu h in_amt in_cltv out_amt out_cltv = ROk b ->
+  out_amt <= in_amt /\ out_cltv + MIN_CLTV_EXPIRY_DELTA <= in_cltv /\
+  in_cltv > h + HTLC_FAIL_BACK_BUFFER /\ out_cltv > h + LATENCY_GRACE_PERIOD_BLOCKS /\
+  (b = true -> needs_intercept_unknown k fi fu = true) /\ (b = false -> k = ScidPhantom).
+Proof. exact no_channel_admission_sound. Qed.
+
 (** Blinded forwards: [amt_to_forward_msat] returns the LARGEST amount whose fee still fits (an
     off-by-one either way loses or overcharges 1 msat), or [None] exactly when nothing fits. *)
 Theorem C02_amt_to_forward_largest : forall inbound r,
@@ -163,8 +172,18 @@ Proof. exact claim_progress. Qed.
 
 Theorem C02_fail_only_when_safe : forall ls,
   let s := run init ls in
-  up (m s) = UFailed -> c_failed (g s) = true \/ timeout_buried (g s) = true.
+  up (m s) = UFailed ->
+  c_failed (g s) = true \/
+  (d_conf (g s) = Some false /\ timeout_buried (g s) = true) \/
+  (d_conf (g s) = Some true /\ timeout_buried (g s) = true).
 Proof. exact fail_only_when_safe. Qed.
+
+(** ... where a burial label fires only for its own kind of CONFIRMED commitment (no output there /
+    an output there), whichever of the four commitments of D it is. *)
+Theorem C02_burial_matches_confirmed_commitment : forall x gh,
+  (fst (lstep x gh LChainNoOutputBuried) <> x -> d_conf gh = Some false) /\
+  (fst (lstep x gh LChainTimeoutSpendBuried) <> x -> d_conf gh = Some true).
+Proof. exact burial_needs_matching_output. Qed.
 
 Theorem C02_no_loss : forall ls (in_amt out_amt fee : nat),
   (out_amt + fee <= in_amt)%nat ->
@@ -190,8 +209,11 @@ Proof. vm_compute. repeat split. Qed.
 
 Example C02_model_fail_paths :
   up (m (run init [LForward; LFailMsg; LCommitFail; LRaaFail])) = UFailed /\
-  up (m (run init [LForward; LCloseD; LChainTimeout])) = UFailed /\
-  up (m (run init [LForward; LCloseD; LChainPreimage false; LCrash false false false])) = UClaimInFlight /\
+  up (m (run init [LForward; LCloseD HolderCurrent false; LChainNoOutputBuried])) = UFailed /\
+  (* the previous holder commitment confirmed WITH an output: burial of the commitment alone fails nothing *)
+  up (m (run init [LForward; LFailMsg; LCommitFail; LCloseD HolderPrevious true; LChainNoOutputBuried])) = UCommitted /\
+  up (m (run init [LForward; LCloseD HolderPrevious true; LChainTimeoutSpendBuried])) = UFailed /\
+  up (m (run init [LForward; LCloseD CounterpartyCurrent true; LChainPreimage false; LCrash false false false])) = UClaimInFlight /\
   up (m (run init [LForward; LFailMsg; LCommitFail])) = UCommitted.
 Proof. vm_compute. repeat split. Qed.
 
